@@ -152,6 +152,7 @@ type loopTr struct {
 	preVars map[string]lty // variables in scope at function entry besides the parameters
 	globals map[string]lty // package-level variables emitted as Lean definitions
 	elem    bool           // element mode (elements.go)
+	heap    bool           // element mode on a heap of points (BatchNormalize)
 	msm     bool           // bucket-method mode (msmchunk.go)
 	u64     map[string]bool // recode mode: integer variables declared `uint64` (their shifts wrap at 64 bits)
 	curIV   string         // innermost loop variable
@@ -685,6 +686,9 @@ func (t *loopTr) assigned(stmts []ast.Stmt) []string {
 	declared := map[string]bool{}
 	var order []string
 	add := func(n string) {
+		if t.heap && n == "dedupedElements" {
+			n = "heap"
+		}
 		if !seen[n] && !declared[n] {
 			seen[n] = true
 			order = append(order, n)
